@@ -289,7 +289,8 @@ impl ExactSizeIterator for MoveGen {
     /// Give the exact length of this iterator
     fn len(&self) -> usize {
         let mut result = 0;
-        for i in 0..self.moves.len() {
+        // slots before self.index are used up already
+        for i in self.index..self.moves.len() {
             if self.moves[i].bitboard & self.iterator_mask == EMPTY {
                 break;
             }
@@ -300,7 +301,8 @@ impl ExactSizeIterator for MoveGen {
                 result += (self.moves[i].bitboard & self.iterator_mask).popcnt() as usize;
             }
         }
-        result
+        // promotions to the current square that were handed out already
+        result - self.promotion_index
     }
 }
 
